@@ -119,6 +119,90 @@ func (ex *Exec) nativeCall(key string, callee *ssa.Function, c *ssa.CallCommon, 
 		data := vc.define(ex.pfx+"do_v", "Int", sIte(ran, r.Tup[0].T, dsh))
 		derr := vc.define(ex.pfx+"do_err", "Int", sIte(ran, r.Tup[1].T, esh))
 		return Val{Tup: []Val{{T: data}, {T: derr}, {T: vc.fresh(ex.pfx+"do_sharedflag", "Bool")}}}, true
+	case "strings.Repeat":
+		note()
+		vc.strPrelude()
+		vc.declareOnce("str:cyc", `(declare-fun str_cyc (Str Int) Int)
+(assert (forall ((s Str) (i Int)) (! (=> (and (<= 0 i) (< i (slen s))) (= (str_cyc s i) (select (sbytes s) i))) :pattern ((str_cyc s i)))))`)
+		ex.nopanic("nopanic.repeat", pos, "(>= "+args[1].T+" 0)", "strings.Repeat: negative count")
+		r := vc.fresh(ex.pfx+"rep", strSort)
+		sl := "(slen " + args[0].T + ")"
+		vc.assume(sImp(ex.curReach, sAnd("(str_wf "+r+")",
+			sImp(sOr("(= "+args[1].T+" 0)", "(= "+sl+" 0)"), "(= (slen "+r+") 0)"),
+			sImp("(>= "+sl+" 1)", "(>= (slen "+r+") "+args[1].T+")"),
+			"(<= (slen "+r+") 72057594037927936)",
+			fmt.Sprintf("(forall ((i Int)) (! (=> (and (<= 0 i) (< i (slen %s))) (= (select (sbytes %s) i) (str_cyc %s i))) :pattern ((select (sbytes %s) i))))", r, r, args[0].T, r))))
+		vc.assumptions["strings.Repeat(s, n): n copies of s (length n*len(s), byte i is s[i mod len(s)], written str_cyc(s,i)); only the consequences len >= n (for non-empty s) and the first period are given to the solver"] = true
+		return Val{T: r}, true
+	case "math.Floor":
+		note()
+		return Val{T: "(to_real (to_int " + args[0].T + "))"}, true
+	case "math.Ceil":
+		note()
+		return Val{T: "(- (to_real (to_int (- " + args[0].T + "))))"}, true
+	case "strings.Index", "strings.LastIndex":
+		note()
+		// assumed contract: the first / last byte offset at which substr occurs in s, or -1
+		vc.strPrelude()
+		vc.declareOnce("str:occurs", `(declare-fun str_occurs (Str Str Int) Bool)
+(assert (forall ((s Str) (t Str) (p Int)) (! (= (str_occurs s t p) (and (<= 0 p) (<= (+ p (slen t)) (slen s)) (forall ((i Int)) (! (=> (and (<= 0 i) (< i (slen t))) (= (select (sbytes s) (+ p i)) (select (sbytes t) i))) :pattern ((select (sbytes t) i)))))) :pattern ((str_occurs s t p)))))`)
+		r := vc.fresh(ex.pfx+"stridx", "Int")
+		sv, tv := args[0].T, args[1].T
+		var ext string
+		if key == "strings.Index" {
+			ext = fmt.Sprintf("(forall ((q Int)) (! (=> (and (<= 0 q) (< q %s)) (not (str_occurs %s %s q))) :pattern ((str_occurs %s %s q))))", r, sv, tv, sv, tv)
+		} else {
+			ext = fmt.Sprintf("(forall ((q Int)) (! (=> (> q %s) (not (str_occurs %s %s q))) :pattern ((str_occurs %s %s q))))", r, sv, tv, sv, tv)
+		}
+		vc.assume(sImp(ex.curReach, sAnd("(>= "+r+" (- 1))", "(<= "+r+" (slen "+sv+"))",
+			sImp("(>= "+r+" 0)", sAnd("(str_occurs "+sv+" "+tv+" "+r+")", ext)),
+			sImp("(= "+r+" (- 1))", fmt.Sprintf("(forall ((q Int)) (! (not (str_occurs %s %s q)) :pattern ((str_occurs %s %s q))))", sv, tv, sv, tv)))))
+		// two consequences at the positions callers care about (prefix / suffix), stated on ground terms so that
+		// the solver has something to instantiate the definition of str_occurs with
+		if key == "strings.Index" {
+			vc.assume(sImp(ex.curReach, sImp("(str_occurs "+sv+" "+tv+" 0)", sEq(r, "0"))))
+		} else {
+			end := "(- (slen " + sv + ") (slen " + tv + "))"
+			vc.assume(sImp(ex.curReach, sImp("(str_occurs "+sv+" "+tv+" "+end+")", sEq(r, end))))
+		}
+		vc.assumptions["strings.Index / strings.LastIndex return the first / last byte offset of an occurrence, or -1 if there is none"] = true
+		return Val{T: r}, true
+	case "(*strings.Builder).WriteString", "(*strings.Builder).WriteRune", "(*strings.Builder).WriteByte":
+		note()
+		vc.strPrelude()
+		st := ex.curState
+		sb := ex.get(st, "SB", "(Array Int Str)")
+		add := args[1].T
+		if key != "(*strings.Builder).WriteString" {
+			add = vc.strFromRune(args[1].T)
+		}
+		ex.set(st, "SB", "(Array Int Str)", sSto(sb, args[0].T, vc.strConcat(sSel(sb, args[0].T), add)))
+		vc.assumptions["strings.Builder accumulates exactly the strings written to it (a zero Builder is empty)"] = true
+		n := vc.fresh(ex.pfx+"wn", "Int")
+		if key == "(*strings.Builder).WriteByte" {
+			return Val{T: "0"}, true
+		}
+		return Val{Tup: []Val{{T: n}, {T: "0"}}}, true
+	case "(*strings.Builder).String":
+		note()
+		vc.strPrelude()
+		return Val{T: sSel(ex.get(ex.curState, "SB", "(Array Int Str)"), args[0].T)}, true
+	case "(*strings.Builder).Grow", "(*strings.Builder).Reset":
+		note()
+		if key == "(*strings.Builder).Reset" {
+			st := ex.curState
+			ex.set(st, "SB", "(Array Int Str)", sSto(ex.get(st, "SB", "(Array Int Str)"), args[0].T, vc.strEmpty()))
+		}
+		return Val{}, true
+	case "unicode.ToLower", "unicode.ToUpper":
+		note()
+		fn := "uni_lower"
+		if key == "unicode.ToUpper" {
+			fn = "uni_upper"
+		}
+		vc.declareOnce("fn:"+fn, "(declare-fun "+fn+" (Int) Int)\n(assert (forall ((r Int)) (! (and (<= 0 ("+fn+" r)) (<= ("+fn+" r) 1114111)) :pattern (("+fn+" r)))))")
+		vc.assumptions["unicode.ToLower / unicode.ToUpper are fixed functions of the rune (uninterpreted uni_lower / uni_upper)"] = true
+		return Val{T: "(" + fn + " " + args[0].T + ")"}, true
 	case "time.After":
 		note()
 		// a channel that delivers once the ghost clock has advanced by at least d
